@@ -639,10 +639,7 @@ def generate():
     body += "def jsonMax : List (String × Nat) := %s\n" % lean_list(["(%s, %d)" % (lean_str(c), m) for c, m in jl])
     body += "def jsonTooLong (n max : Nat) : Bool := decide (n %s max)\n" % jop
 
-    raw, entries = graph_writers()
-    if entries != EXPECTED_ENTRY_POINTS:
-        raise ExtractionError("entry points that take a name/labels/tags/... changed: new %s, gone %s - every one needs a driver in the C16 harness"
-                              % (sorted(entries - EXPECTED_ENTRY_POINTS), sorted(EXPECTED_ENTRY_POINTS - entries)))
+    raw, entries = graph_writers()       # the set of entry points is pinned by gen/entrypoints.py (probe registry of the harness)
     body += "\n/-- methods of fim.user that write a validated property straight into the graph (not through a sliver), and what\n"
     body += "    routes the value through the validator before the write (\"unguarded\" = nothing does) -/\n"
     body += "def rawWriters : List (String × String × String) := %s\n" % lean_list(
